@@ -298,6 +298,46 @@ func c11Run(c c11Case) (*eng.Fail, bool) {
 		return &eng.Fail{Sig: c.G + " value(eval)", What: fmt.Sprintf("%s on registers evaluates to %x, documented function gives %x", desc, got, exp), Case: c,
 			Expected: exp.Text(16), Observed: got.Text(16)}, true
 	}
+	// way 3: one operand constant, the other a register — the real ConstFold simplifies the
+	// half-constant gadget (its gadget recognisers see constants next to symbolic operands), the
+	// independent evaluator decides the value of what is left
+	if g.arity == 2 {
+		for side := 0; side < 2; side++ {
+			oa, ob := expr.Expr(expr.NewRegLoad("a", wa)), expr.Expr(expr.NewRegLoad("b", wb))
+			if side == 0 {
+				ob = ir.Const(b, wb)
+			} else {
+				oa = ir.Const(a, wa)
+			}
+			var half expr.Expr
+			p, stack := eng.Catch(func() {
+				half = exprtransform.ConstFold(g.build(c, oa, ob, expr.NewRegLoad("t", w), expr.NewRegLoad("f", w)))
+			})
+			if p != nil {
+				return &eng.Fail{Sig: c.G + " panic(half-constant) " + eng.PanicSite(stack), What: desc + " with one constant operand panics in ConstFold: " + fmt.Sprint(p), Case: c}, true
+			}
+			if got := ir.Eval(half, env); !cmp(got) || half.Width() != outW {
+				return &eng.Fail{Sig: c.G + " value(half-constant fold)", What: fmt.Sprintf("%s with operand %d a register and the other a constant folds to %s (w%d), which evaluates to %x; documented function gives %x", desc, side+1, ir.Show(half), half.Width(), got, exp), Case: c,
+					Expected: exp.Text(16), Observed: got.Text(16)}, true
+			}
+		}
+	}
+	// the width-gadget recogniser: whatever WidthGadgetArg accepts has the value of the argument it returns
+	if c.G == "Sub" {
+		for _, k := range []*big.Int{a, b, new(big.Int)} {
+			sum := expr.NewBinary(expr.Add, expr.NewRegLoad("a", wa), ir.Const(k, wb), w)
+			arg, ok := exprtools.WidthGadgetArg(sum)
+			if !ok {
+				if k.Sign() == 0 && wb == 1 {
+					return &eng.Fail{Sig: "WidthGadgetArg rejects gadget", What: fmt.Sprintf("WidthGadgetArg(%s) = false", ir.Show(sum)), Case: c}, true
+				}
+				continue
+			}
+			if x, y := ir.Eval(sum, env), ir.Adjust(ir.Eval(arg, env), w); x.Cmp(y) != 0 {
+				return &eng.Fail{Sig: "WidthGadgetArg accepts non-gadget", What: fmt.Sprintf("WidthGadgetArg(%s) = (%s, true) but the expression has value %x and the argument %x", ir.Show(sum), ir.Show(arg), x, y), Case: c}, true
+			}
+		}
+	}
 	return nil, true
 }
 
@@ -305,7 +345,7 @@ func init() {
 	names := []string{"Negate", "Abs", "BitNot", "Ones", "IntNegative", "Bool", "Not", "BoolCond", "WidthGadget", "WidthGadget2", "BoolCondNarrow", "Sub", "Mod",
 		"BitAnd", "BitOr", "BitXor", "RshA", "SignedMul", "SignedDiv", "SignedMod", "SignExtend", "MaskBits", "Eq", "Leu", "Lts", "Les"}
 	checks["C11"] = eng.Check{
-		Rule: "every exported gadget constructor of pkg/expr/exprtools (plus two compositions: a width gadget of a width gadget, and a narrowed value selected by a wider BoolCond), evaluated (1) on constants through the real ConstFold and (2) on register loads through the independent evaluator, against big-integer definitions of the documented functions: ALL 65536 operand pairs at width 1 (all 8 sign bits, all 0..8 mask counts, all shift amounts), boundary alphabets at widths 2,3,4,8,16 (SignedMul also 32,64,127) and, with operands of the gadget's own width, at 33 and 255 (thorough 32,33,64,128,255), with operands of width w and — for the unsigned/bitwise gadgets — w-1 and w+1, for the signed arithmetic gadgets also 1 and w-1 on either side. Non-trivial = case inside the gadget's documented domain.",
+		Rule: "every exported gadget constructor of pkg/expr/exprtools (plus two compositions: a width gadget of a width gadget, and a narrowed value selected by a wider BoolCond), evaluated (1) on constants through the real ConstFold, (2) on register loads through the independent evaluator and (3) for two-operand gadgets with either operand a constant and the other a register: the real ConstFold simplifies the half-constant gadget and the independent evaluator decides what is left (plus: whatever WidthGadgetArg accepts among register+constant additions has the value of the argument it returns), against big-integer definitions of the documented functions: ALL 65536 operand pairs at width 1 (all 8 sign bits, all 0..8 mask counts, all shift amounts), boundary alphabets at widths 2,3,4,8,16 (SignedMul also 32,64,127) and, with operands of the gadget's own width, at 33 and 255 (thorough 32,33,64,128,255), with operands of width w and — for the unsigned/bitwise gadgets — w-1 and w+1, for the signed arithmetic gadgets also 1 and w-1 on either side. Non-trivial = case inside the gadget's documented domain.",
 		Assumptions: []string{
 			"signed gadgets (SignedMul/Div/Mod) are judged with operands at most w wide, each taken as a signed integer of its own width (what the gadgets implement and the front end relies on for x0); SignExtend only with sign bit < 8w; MaskBits only with count <= 8w; BoolCond only with a condition not wider than w (documented preconditions)",
 			"IntNegative is judged as zero / non-zero",
